@@ -350,7 +350,15 @@ func (m *MsgClaim) ValidateBasic() (err error) {
 	if !ok {
 		return sdkerrors.ErrInvalidRequest.Wrapf("expected claim type %T, got %T", new(ExternalClaim), m.Claim.GetCachedValue())
 	}
-	return claim.ValidateBasic()
+	if err = claim.ValidateBasic(); err != nil {
+		return err
+	}
+	// the transaction is signed by the wrapper's bridger address, the vote is counted
+	// for the claim's bridger address: they must be the same account
+	if m.BridgerAddress != claim.GetClaimer().String() {
+		return sdkerrors.ErrInvalidAddress.Wrap("bridger address does not match the claim's bridger address")
+	}
+	return nil
 }
 
 func (m *MsgClaim) GetSigners() []sdk.AccAddress {
